@@ -58,6 +58,9 @@ def gen_reads(rng, b, cn, uniform):
                     m[-1][1] += n
                 else:
                     m.append([op, n])
+            over = st + sum(n for op, n in m if op in (0, 2, 7, 8)) - (ws + wl)
+            if over > 0:          # the read would run past the generated window (up to 183 reference bases per read): move it left
+                st -= over
             reads.append([st, m, rng.choice([1, 1, 2, 3])])
     return reads, L // step
 
